@@ -481,6 +481,20 @@ func blockEscapes(info *types.Info, fn *core.FuncRef, is *ast.IfStmt, errExpr as
 	if bad != "" {
 		return false, bad
 	}
+	// `if err != nil { if !os.IsNotExist(err) { return …err }; <handle the one benign class> }`: every error but a
+	// named sentinel class is returned; what remains is handled in place and execution rightly goes on
+	if first, ok := block.List[0].(*ast.IfStmt); ok && first.Else == nil && len(first.Body.List) > 0 {
+		if ue, ok := core.Unparen(first.Cond).(*ast.UnaryExpr); ok && ue.Op == token.NOT {
+			if call, ok := core.Unparen(ue.X).(*ast.CallExpr); ok && mentions(info, call, errExpr) {
+				switch core.ExprStr(call.Fun) {
+				case "os.IsNotExist", "os.IsExist", "errors.Is", "os.IsPermission", "os.IsTimeout":
+					if rs, ok := first.Body.List[len(first.Body.List)-1].(*ast.ReturnStmt); ok && retErr && len(rs.Results) > 0 && !core.IsNilIdent(info, rs.Results[len(rs.Results)-1]) {
+						return true, "returns every error except the named class (" + core.ExprStr(call.Fun) + "), which is handled in place"
+					}
+				}
+			}
+		}
+	}
 	// the last statement must leave the block abnormally or record the error
 	last := block.List[len(block.List)-1]
 	switch x := last.(type) {
